@@ -463,9 +463,32 @@ class LifecycleWorld(World):
                 ctx.fault("del_monitor")
             elif name == "add_monitor":
                 nm = f"cell{op['cell']}"
-                if nm not in A.reg["t0"] or op["mname"] in MON_NAMES[A.kind["t0"]]:
+                if nm not in A.reg["t0"]:
                     continue
                 dt = cfg["dt"]
+                if op["mname"] in MON_NAMES[A.kind["t0"]]:
+                    # replacing one of the trainer's own monitors is only meaningful as an equivalent, unique replacement:
+                    # the cell gets its own pass-through recorder of its neuron's spikes; cells that pooled the old one keep it
+                    if op["mname"] != "spike_post" or not op["unique"] or A.kind["t0"] == "LinearHomeostasis":
+                        continue
+                    shared = self._cell_shares_monitor(A, "t0", nm)
+                    with ctx.impl("add_monitor(unique replacement)", dict(facts, trainer="t0")):
+                        A.trainers["t0"].add_monitor(nm, "spike_post", "neuron.spike",
+                                                     observe.StateMonitor.partialconstructor(reducer=observe.PassthroughReducer(dt, duration=0.0, inclusive=True), as_prehook=False,
+                                                                                             train_update=True, eval_update=False, prepend=True),
+                                                     True, dt=dt)
+                    A.watch("t0")
+                    disruptive_seen = True
+                    ctx.fault("unique_monitor_replacement")
+                    if shared:
+                        ctx.probe("replace_monitor_while_shared")
+                    ctx.log(name, {k: v for k, v in op.items() if k != "op"})
+                    last = name
+                    for sys_, sname in ((A, "A"), (Bc, "B")):
+                        for tag in sys_.trainers:
+                            check_listings(sys_, tag, name)
+                        check_hooks(sys_, f"{name} (system {sname})")
+                    continue
                 with ctx.impl("add_monitor", dict(facts, trainer="t0")):
                     A.trainers["t0"].add_monitor(nm, op["mname"], op["attr"],
                                                  observe.StateMonitor.partialconstructor(reducer=observe.PassthroughReducer(dt, duration=0.0), as_prehook=False, train_update=True, eval_update=False, prepend=True),
